@@ -1141,6 +1141,9 @@ func glueCases(c *core.Ctx, r *runner, only string) {
 //	C19.format|seed|threads <path> <set>   the global options after parsing
 //	C19.glue <set>                  option glue of one anchored command
 //	C19.sentinels                   table (g)
+//	C19.env                         environment variables read by the command layer: set vs unset
+//	C19.console <name>              a history of two commands in one console session
+//	C19.fname <name>                the same text under input file names with various suffixes
 //	C19.io <kind> <name>            what "stdout" / "stdin" mean for one command (kind out | in)
 //	C19.help <path>                 help text of one command
 //	C19.roundtrip <path> <flag>     Set(DefValue).String() of one flag
@@ -1183,6 +1186,30 @@ func Replay(c *core.Ctx, lines []string) {
 				r = newRunner(c, 0)
 			}
 			ioCases(c, r, f[1]+"/"+f[2])
+		case "C19.env":
+			if c.Gotree == "" {
+				continue
+			}
+			if r == nil {
+				r = newRunner(c, 0)
+			}
+			envCases(c, r)
+		case "C19.console":
+			if c.Gotree == "" || len(f) < 2 {
+				continue
+			}
+			if r == nil {
+				r = newRunner(c, 0)
+			}
+			consoleCases(c, r, f[1])
+		case "C19.fname":
+			if c.Gotree == "" || len(f) < 2 {
+				continue
+			}
+			if r == nil {
+				r = newRunner(c, 0)
+			}
+			fnameCases(c, r, f[1])
 		case "C19.reads":
 			emitReads(c, table, un(1)+"/"+un(2))
 		case "C19.row":
@@ -1309,6 +1336,9 @@ func Run(c *core.Ctx) {
 			preRunCases(c, r, "")
 			glueCases(c, r, "")
 			ioCases(c, r, "")
+			fnameCases(c, r, "")
+			consoleCases(c, r, "")
+			envCases(c, r)
 			generatedCases(c, r, "")
 		}
 		r.close()
